@@ -31,6 +31,7 @@ Definition tex_ctx : list module :=
         ItFunc tex_func;
         ItBss (Some (str "b")) 16;
         ItData (Some (str "d")) TI8 [-128; 127]; ItData None TU8 [104; 105; 0];
+        ItData (Some (str "pd")) TP [0; 3735928559; 18446744073709551615];
         ItRef (Some (str "r1")) (str "d") (-1);
         ItLref (Some (str "l1")) 1 (Some 2) 8;
         ItExpr None (str "f") ];
